@@ -879,6 +879,7 @@ fn gen_c07(g: &mut Gen, id: usize) -> Vec<String> {
     cg.out.push(format!("probe room={} dates={}", room, PROBE_DATES));
     // ---- a second room of the same admin: material for replays
     let mut other_rows: Vec<u64> = vec![];
+    let mut other_group: Option<GDef> = None;
     if cg.g.chance(1, 2) {
         let z = 40u64;
         cg.srow(&PRow { p: None, id: z, ent: 100, c: 100, m: 100, by: 0, body: PBody::Name(0), sig: true });
@@ -892,6 +893,7 @@ fn gen_c07(g: &mut Gen, id: usize) -> Vec<String> {
         let gi = cg.group(&mut dz, 100, 0, Some(0));
         other_rows.extend(dz.auths[gi].users.rows.iter());
         other_rows.extend(dz.auths[gi].rights.rows.iter());
+        other_group = Some(dz.auths[gi].clone());
         // a room not seen before must replay as a whole: sometimes one entry is not entitled
         if cg.g.chance(1, 3) {
             let gz = dz.auths[gi].id;
@@ -929,7 +931,7 @@ fn gen_c07(g: &mut Gen, id: usize) -> Vec<String> {
     let rounds = 1 + cg.g.below(4);
     for _ in 0..rounds {
         let mut c = d.clone();
-        let kind = cg.g.weighted(&[6, 5, 4, 4, 4, 3, 5, 4, 4, 3, 3, 3, 3, 3, 3, 3, 3, 2, 2, 6, 4, 7, 5, 2]);
+        let kind = cg.g.weighted(&[6, 5, 4, 4, 4, 3, 5, 4, 4, 3, 3, 3, 3, 3, 3, 3, 3, 2, 2, 6, 4, 7, 5, 2, 5]);
         let t = *cg.g.pick(&[150i64, 250, 300, 350, 500, 600]);
         let gi = cg.g.below(c.auths.len());
         let gid = c.auths[gi].id;
@@ -1306,6 +1308,33 @@ fn gen_c07(g: &mut Gen, id: usize) -> Vec<String> {
                 cg.entry(&mut l, gid, 101, 34, 102, t, 0, PBody::User(3, true));
                 c.auths[gi].users = l;
             }
+            // the reference that attaches a GROUP to the room: a whole group of the other room of the same admin
+            // replayed into this one; a new honest group attached with a wrong label / source entity / by a key
+            // that is no admin (controls: by the admin; a newer group row by another admin keeps the old reference)
+            24 => match cg.g.below(3) {
+                0 if other_group.is_some() => {
+                    let og = other_group.clone().unwrap();
+                    let signer = *cg.g.pick(&[6u64, 2, 0]);
+                    let e = cg.new_edge(room, 100, 33, og.id, t, signer, true);
+                    c.auths.push(og);
+                    c.authedges.push(e);
+                }
+                1 => {
+                    let gid2 = cg.new_row(101, t, 0, PBody::Name(1));
+                    let (l, se, by) = *cg.g.pick(&[(33u64, 100u64, 6u64), (33, 100, 3), (32, 100, 0), (34, 100, 0), (33, 101, 0), (33, 100, 0)]);
+                    let e = cg.new_edge(room, se, l, gid2, t, by, true);
+                    let mut gd = GDef { id: gid2, ..Default::default() };
+                    cg.entry(&mut gd.rights, gid2, 101, 33, 103, t, 0, PBody::Right(1, true, true));
+                    c.auths.push(gd);
+                    c.authedges.push(e);
+                    honest = (l, se, by) == (33, 100, 0);
+                }
+                _ => {
+                    // the group row re-signed by admin 4 (an admin from 200 on in most worlds): the reference room → group stays the creator's
+                    let m = *cg.g.pick(&[250i64, 300, 700]);
+                    cg.srow(&PRow { p: None, id: gid, ent: 101, c: 100, m, by: 4, body: PBody::Name(3), sig: true });
+                }
+            },
             // nothing new at all (re-sent definition)
             _ => {}
         }
